@@ -217,14 +217,16 @@ def Slug(name):
 
 
 # ---- aggregates ---------------------------------------------------------------
-# One predicate carries all scalar aggregates of a domain.  At most three of the
-# engine deviations recorded for C02 can meet in one row (empty input: Count 0,
-# List [], one row for no key; all-null input: Count 0, List / Set keep nulls),
-# which semrun's explanation stage (up to triples) still names exactly.
-NUM_AGGS = [('s', 'Sum'), ('mn', 'Min'), ('mx', 'Max'), ('av', 'Avg'),
-            ('st', 'Set'), ('c', 'Count'), ('l', 'List')]
-STR_AGGS = [('mn', 'Min'), ('mx', 'Max'), ('st', 'Set'), ('c', 'Count'),
-            ('l', 'List')]
+# Set is kept apart from Count / List: semrun's explanation stage first tests
+# the full set of engine deviations, and "Set of nothing is []" (listed for
+# C02) does not hold where "List of nothing is []" does, so a table holding
+# both could not be explained.  At most three deviations meet in one table
+# (no rows: Count 0, List [], one row for no key).
+NUM_AGGS_A = [('s', 'Sum'), ('mn', 'Min'), ('mx', 'Max'), ('av', 'Avg'),
+              ('st', 'Set')]
+NUM_AGGS_B = [('c', 'Count'), ('l', 'List')]
+STR_AGGS_A = [('mn', 'Min'), ('mx', 'Max'), ('st', 'Set')]
+STR_AGGS_B = [('c', 'Count'), ('l', 'List')]
 ARG_AGGS = [('mn', 'ArgMin'), ('mn1', 'ArgMinK1'), ('mn2', 'ArgMinK2'),
             ('mn3', 'ArgMinK3'), ('mx', 'ArgMax'), ('mx1', 'ArgMaxK1'),
             ('mx2', 'ArgMaxK2'), ('mx3', 'ArgMaxK3')]
@@ -295,23 +297,32 @@ def Tv(v):
   return NULL if v is None else (N(v) if isinstance(v, int) else S(v))
 
 
-def ScalarAggCase(seq):
+def ScalarAggCase(seq, strings=True):
   nums = [[Tv(v)] for v in seq]
   strs = [[Tv(None if v is None else STR_OF[v])] for v in seq]
-  preds = [Facts('E', nums, 1), Facts('F', strs, 1),
-           HeadAgg('PN', 'E', NUM_AGGS), ExprAgg('XN', 'E', NUM_AGGS),
-           HeadAgg('PS', 'F', STR_AGGS), ExprAgg('XS', 'F', STR_AGGS)]
+  preds = [Facts('E', nums, 1),
+           HeadAgg('PA', 'E', NUM_AGGS_A), HeadAgg('PB', 'E', NUM_AGGS_B),
+           ExprAgg('XA', 'E', NUM_AGGS_A), ExprAgg('XB', 'E', NUM_AGGS_B)]
+  query = ['PA', 'PB', 'XA', 'XB']
+  groups = [NUM_AGGS_A, NUM_AGGS_B]
+  if strings:
+    preds += [Facts('F', strs, 1),
+              HeadAgg('QA', 'F', STR_AGGS_A), HeadAgg('QB', 'F', STR_AGGS_B),
+              ExprAgg('YA', 'F', STR_AGGS_A), ExprAgg('YB', 'F', STR_AGGS_B)]
+    query += ['QA', 'QB', 'YA', 'YB']
+    groups += [STR_AGGS_A, STR_AGGS_B]
   tag = ''.join('z' if v is None else str(v) for v in seq) or 'empty'
   counts = {}
-  for fields in (NUM_AGGS, STR_AGGS):
+  for fields in groups:
     for _, agg in fields:
       counts[agg] = counts.get(agg, 0) + 2     # head + expression
   feats = ['agg:' + a for a in counts] + ['agg_head', 'agg_expr',
                                           'rows%d' % len(seq)]
+  if strings:
+    feats.append('string_domain')
   if None in seq:
     feats.append('null_row')
-  return {'id': 'ag_' + tag, 'prog': Prog(preds),
-          'query': ['PN', 'XN', 'PS', 'XS'],
+  return {'id': 'ag_' + tag, 'prog': Prog(preds), 'query': query,
           'meta': {'features': feats, 'calls': counts, 'kind': 'agg',
                    'rows': len(seq), 'sig': {'c20': 'scalar_agg'}}}
 
@@ -319,18 +330,20 @@ def ScalarAggCase(seq):
 def PairSequences(tier, rng):
   """Value multisets {null,0,1,2} (size <= 4) whose rows carry distinct
   arguments "a".."d" (in value order and in reverse value order), in every
-  arrangement (quick: every arrangement up to 3 rows, seeded picks of 4)."""
+  arrangement (quick: every arrangement up to 2 rows, seeded picks of 3, 4)."""
   key = lambda v: (v is not None, v if v is not None else 0)
   out = []
   for n in range(5):
-    for ms in Multisets(sorted((None, 0, 1, 2), key=key), n):
-      for labels in ('abcd', 'dcba'):
+    for j, ms in enumerate(Multisets(sorted((None, 0, 1, 2), key=key), n)):
+      for li, labels in enumerate(('abcd', 'dcba')):
         rows = tuple((labels[i], v) for i, v in enumerate(ms))
         arr = Arrangements(rows)
         if tier != 'thorough' and n == 4:
+          if li != j % 2:
+            continue
           arr = rng.sample(arr, 1)
-        elif tier != 'thorough' and n == 3 and labels == 'dcba':
-          arr = rng.sample(arr, 1)
+        elif tier != 'thorough' and n == 3:
+          arr = rng.sample(arr, 2)
         for a in arr:
           out.append(list(a))
         if n == 0:
@@ -370,7 +383,13 @@ def PairAggCase(rows, idx):
 
 
 def AggCases(tier, rng):
-  cases = [ScalarAggCase(s) for s in ValueSequences(tier, rng)]
+  seqs = ValueSequences(tier, rng, picks=1)
+  cases = []
+  for i, s in enumerate(seqs):
+    # quick: the string domain on every arrangement up to 2 rows and on every
+    # third longer one
+    strings = tier == 'thorough' or len(s) <= 2 or i % 3 == 0
+    cases.append(ScalarAggCase(s, strings))
   cases += [PairAggCase(r, i) for i, r in enumerate(PairSequences(tier, rng))]
   for c in cases:
     c['text'] = ir.RenderProgram(c['prog'])
